@@ -4398,6 +4398,11 @@ class TLSConnection(TLSRecordLayer):
             for result in self._sendError(
                     AlertDescription.insufficient_security):
                 yield result
+        except TLSInternalError as alert:
+            for result in self._sendError(
+                    AlertDescription.internal_error,
+                    str(alert)):
+                yield result
 
         #Send ServerHello[, Certificate or Compressed Certificate],
         #ServerKeyExchange, ServerHelloDone
@@ -4849,7 +4854,18 @@ class TLSConnection(TLSRecordLayer):
     def _serverAnonKeyExchange(self, serverHello, keyExchange, cipherSuite):
 
         # Create ServerKeyExchange
-        serverKeyExchange = keyExchange.makeServerKeyExchange()
+        try:
+            serverKeyExchange = keyExchange.makeServerKeyExchange()
+        except TLSInternalError as alert:
+            for result in self._sendError(
+                    AlertDescription.internal_error,
+                    str(alert)):
+                yield result
+        except TLSInsufficientSecurity as alert:
+            for result in self._sendError(
+                    AlertDescription.insufficient_security,
+                    str(alert)):
+                yield result
 
         # Send ServerHello[, Certificate], ServerKeyExchange,
         # ServerHelloDone
